@@ -2,6 +2,7 @@
 From Coq Require Import List String.
 From SCC Require Import Base.Sexp Model.RunBase Model.RunPM Model.RunX86.
 From SCC Require Import Base.Sexp Model.RunBase Model.RunPM Model.RunStages.
+From SCC Require Import Model.RunFocus.
 Open Scope string_scope.
 
 Definition dispatch (cmd : string) (input : string) : string :=
@@ -9,5 +10,6 @@ Definition dispatch (cmd : string) (input : string) : string :=
   | "pm" => run_pm input
   | "codegen-x86" => run_codegen_x86 input
   | "stages" => run_stages input
+  | "focus" => run_focus input
   | _ => "BAD - unknown command " ++ cmd ++ nl
   end.
